@@ -109,8 +109,10 @@ def run_cases(scenario, ch, use_python_plugin=True, want_calls=False):
         p = prog_of(scenario["prog"])
         ctx["prog"] = p
         cfg = dict(scenario.get("cfg") or {})
-        w = world.World(k, cfg=cfg, python_plugin=use_python_plugin)
+        w = world.World(k, cfg=cfg, python_plugin=use_python_plugin, plugins=scenario.get("plugins", ()))
         ctx["world"] = w
+        if scenario.get("send_faults") is not None:
+            w.service.send_faults = scenario["send_faults"]
         rec = host.Recorder(k, depth=scenario.get("ref_depth", 7)).attach(w)
         rec.install()
         rec.all_frames = bool(scenario.get("all_frames"))
